@@ -11,6 +11,7 @@ import (
 	"flag"
 	"fmt"
 	"os"
+	"runtime"
 	"sort"
 	"strconv"
 	"strings"
@@ -640,6 +641,12 @@ func replayLine(o *hx.Out, r *hx.Rng, line string) {
 		doScanCase(o, parseChans(t[2]))
 	case "wsend":
 		doWsendCase(o, parseWsend(t[2]))
+	case "shutdown":
+		if len(t) >= 9 {
+			c := parseShut(t[2:9])
+			c.k = runtime.GOMAXPROCS(-1) // the capacity of the call queue is fixed by oxia/batch on this machine
+			doShutdownCase(o, c)
+		}
 	case "listc":
 		doListcCase(o, parseChans(t[3]), splitList(t[4]))
 	case "mget":
@@ -653,6 +660,10 @@ func replayLine(o *hx.Out, r *hx.Rng, line string) {
 }
 
 func main() {
+	if len(os.Args) == 3 && os.Args[1] == "shutc-child" {
+		shutcChild(os.Args[2])
+		return
+	}
 	if len(os.Args) == 4 && os.Args[1] == "listc-child" {
 		listcChild(os.Args[2], os.Args[3])
 		return
@@ -775,6 +786,11 @@ func main() {
 		"scan 0 k61:1,k63:2|E1001",
 		"scan 0 k612f61:1,k612d622f63:2|k612f63:3",
 		"wsend 0 a1;f14+a9;c106+a3",
+		"shutdown 0 0 1000 0 2 1 0 2", // late Add parked in the send when Close comes (K is replaced by the real capacity)
+		"shutdown 0 0 1000 0 2 3 2 0",
+		"shutdown 0 1 3 0 2 2 1 1",
+		"shutdown 0 0 1 0 1 2 1 3",
+		"shutdown 0 1 2 0 0 2 1 0",
 		"listc 0 1 E5|k63:0,k64:0 F0,C,G1",
 		"listc 0 1 k61:0|k63:0,k64:0|k65:0 F1,F0,C,G2,G1",
 		"listc 0 1 -|- -",
@@ -789,6 +805,8 @@ func main() {
 	} {
 		replayLine(o, r.Fork(), l)
 	}
+
+	doShutdownStress(o, 150+f.N/5)
 
 	nextID := 0
 	retries := 10 + f.N/150 // every retry waits for the batch's backoff (100 ms and growing)
@@ -819,6 +837,12 @@ func main() {
 		if i%10 == 0 {
 			wb := 0 // no retriable connection failures here: each costs the batch's backoff
 			doWsendCase(o, genWsendCase(r, &wb))
+		}
+		if i%12 == 0 {
+			doShutdownCase(o, genShutdownCase(r))
+		}
+		if i == 0 || i == 250 {
+			doShutClientCase(o, 1+i/250)
 		}
 		if i%25 == 0 { // each of these runs in a child process and waits 60 ms after the cancellation
 			chans, ev := genListcCase(r)
